@@ -119,13 +119,12 @@ Definition cdr_w_i32 (v : Z) : wr := w_u32 (wrap_u32 v).
 Definition cdr_w_u32 (v : Z) : wr := w_u32 v.
 (* String: (len + 1) as u32, bytes, 0 *)
 Definition cdr_w_string (s : bytes) : wr := w_u32 (wrap_u32 (blen s + 1)) +++ w_raw s +++ w_raw [0].
-(* String::cdr_deserialize: `length as usize - 1` underflows for length 0
-   (rtps_data_representation.rs:284: panic in the debug profile; in release the
-   wrapped length makes `pos + length` overflow / the slice index panic) *)
-Definition PANIC_STRING_LEN0 : Z := 284.
+(* String::cdr_deserialize: the length counts the terminating 0;
+   `(length as usize).checked_sub(1).ok_or(CdrError::InvalidData)?` (fix c095065: it used to be
+   `length as usize - 1`, a panic for length 0) *)
 Definition cdr_r_string (be : bool) : rdr bytes :=
   len <~ r_u32 E_NED be ;;
-  if len =? 0 then rpanic PANIC_STRING_LEN0 else
+  if len =? 0 then rfail E_INVALID else
   s <~ r_bytes E_NED (len - 1) ;;
   _ <~ r_u8 E_NED ;;
   if utf8_valid s then rret s else rfail E_INVALID.
@@ -191,8 +190,12 @@ Fixpoint pl_seek_f (fuel : nat) (be : bool) (pid : Z) (d : bytes) : res (option 
            | PItem p v rest => if p =? pid then Ok (Some v) else pl_seek_f f be pid rest
            end
   end.
+(* PidIterator::new starts at position 4, after the encapsulation header (fix 0c275fa: it used
+   to start at 0 and read the header as a parameter).  `body` = data[4..]. *)
+Definition pl_seek_body (be : bool) (pid : Z) (body : bytes) : res (option bytes) :=
+  pl_seek_f (S (length body)) be pid body.
 Definition pl_seek (be : bool) (pid : Z) (d : bytes) : res (option bytes) :=
-  pl_seek_f (S (length d)) be pid d.
+  pl_seek_body be pid (drop 4 d).
 
 (* get_locator_list's loop: every matching item is decoded and pushed, in order;
    the first iterator or decoding error is returned *)
@@ -207,8 +210,10 @@ Fixpoint pl_all_f {A} (fuel : nat) (be : bool) (pid : Z) (dec : bytes -> res A) 
                else pl_all_f f be pid dec rest
            end
   end.
+Definition pl_all_body {A} (be : bool) (pid : Z) (dec : bytes -> res A) (body : bytes) : res (list A) :=
+  pl_all_f (S (length body)) be pid dec body.
 Definition pl_all {A} (be : bool) (pid : Z) (dec : bytes -> res A) (d : bytes) : res (list A) :=
-  pl_all_f (S (length d)) be pid dec d.
+  pl_all_body be pid dec (drop 4 d).
 
 (* ------------------------------------------------------------------ ParameterList *)
 (* ParameterList::new *)
@@ -349,16 +354,18 @@ Definition tbl_fits {R} (wt : list (wrow R)) (r : R) : Prop := tbl_fitsb wt r = 
    (used in the statements of the theorems; no proofs here) *)
 (* a value padded to a multiple of 4, and one parameter on the wire *)
 Definition padv (v : bytes) : bytes := v ++ zeros ((- blen v) mod 4).
-Definition param_bytes (pid : Z) (v : bytes) : bytes :=
-  le_bytes 2 (wrap_u16 pid) ++ le_bytes 2 (wrap_u16 (blen v)) ++ v.
+Definition enc16 (be : bool) (x : Z) : bytes := if be then rev (le_bytes 2 x) else le_bytes 2 x.
+Definition param_bytes (be : bool) (pid : Z) (v : bytes) : bytes :=
+  enc16 be (wrap_u16 pid) ++ enc16 be (wrap_u16 (blen v)) ++ v.
 
 (* a pid that can be written: an i16 other than the sentinel *)
 Definition pid_ok (pid : Z) : Prop := -32768 <= pid <= 32767 /\ pid <> 1.
 
-(* a well-formed little-endian parameter: valid pid, 16-bit length *)
+(* a well-formed parameter: valid pid, 16-bit length; params_bytes be ps = its wire bytes in
+   big (be = true) or little endian *)
 Definition item_ok (it : Z * bytes) : Prop := pid_ok (fst it) /\ blen (snd it) <= 65535.
-Fixpoint params_bytes (items : list (Z * bytes)) : bytes :=
-  match items with [] => [] | it :: t => param_bytes (fst it) (snd it) ++ params_bytes t end.
+Fixpoint params_bytes (be : bool) (items : list (Z * bytes)) : bytes :=
+  match items with [] => [] | it :: t => param_bytes be (fst it) (snd it) ++ params_bytes be t end.
 (* the values found under pid, in list order *)
 Fixpoint matches (pid : Z) (items : list (Z * bytes)) : list bytes :=
   match items with
@@ -396,7 +403,6 @@ Definition reader_ok {A} (vals : list bytes) (rd : reader A) (a : A) : Prop :=
 Fixpoint rows_read_back {R} (wt : list (wrow R)) (r : R) (rt : list rrow) : tuple_of rt -> Prop :=
   match rt with
   | [] => fun _ => True
-  | row :: t => fun x => r_pid row <> 768
-                         /\ reader_ok (emitted wt r (r_pid row)) (r_reader row) (fst x)
+  | row :: t => fun x => reader_ok (emitted wt r (r_pid row)) (r_reader row) (fst x)
                          /\ rows_read_back wt r t (snd x)
   end.
